@@ -95,6 +95,11 @@ CLAIMED = {
         note="Coq kernel + vm_compute; stdlib Reals axioms for eval_denotes; transcendental/rounding functions are oracle lookups recorded from the implementation; the tokeniser with arbitrary spacing is covered by correspondence only; known finding parse:compensating-arity-accepted reported as KNOWN-FINDING.",
         technique="Rocq proof (parser completeness, evaluator denotation, table identity) + exact correspondence",
         ref="DESIGN.md §3 C17"),
+    "C16": dict(
+        text="Model of Rule.parse and the rule-loading sequence on top of the shared antecedent/consequent/shunting-yard models, and of the FLL importer; theorems for EVERY text: loading never ends in an internal error (the old crash characterised exactly and kept as a lemma about the as-written variant), a failed load never leaves a rule reporting loaded, every other failure is a syntax or value error, accepted rules are well formed and can be exported and evaluated, and rules with exactly one injected error of each listed class (missing if/then/is/operand/term/variable, unknown variable/term, unbalanced parenthesis, non-numeric or missing weight, trailing token) are rejected - via token-conservation/balance invariants of the shunting-yard; FLL import fails only with syntax/value/lookup errors. Exact correspondence of exception class, loaded flags and loaded trees on mutated rule texts and FLL documents.",
+        note="Coq kernel + vm_compute; closed under the global context; float() recognition is a parameter instantiated by a decidable ASCII class checked against Python on every run; hand models tied by correspondence; no grammar-soundness claim (postfix-ordered antecedents are accepted by the code).",
+        technique="Rocq proof (state-machine invariants for all texts) + exact correspondence on a malformed stream",
+        ref="DESIGN.md §3 C16"),
 }
 PENDING_REASON = "check under construction in this round (planned in DESIGN.md §3); not claimed until its theorems and correspondence run"
 
